@@ -1241,7 +1241,7 @@ _label = st.one_of(
 _qname = st.one_of(
     st.lists(_label, min_size=0, max_size=4),
     st.lists(_label, min_size=1, max_size=3),
-).map(lambda ls: ls + [b""])
+).map(lambda ls: ls + [b""]).filter(lambda ls: W.wire_len(ls) <= 255)
 
 
 @st.composite
@@ -1829,24 +1829,82 @@ def split_cases_for(tier):
 # ---------------------------------------------------------------------------
 
 
+def _udp_require():
+    req = {"__nontrivial__": 1000, "async-twin": 7000, "nontrivial-then-returned": 500,
+           "would-block": 3000, "send-would-block": 1500, "send-expire": 100, "no-deadline": 2000,
+           "api:udp": 6000, "api:receive_udp": 1500, "via-backend": 1000,
+           "dest_given=0": 150, "query_given=0": 200, "query-opcode-nonzero": 1500}
+    for o in ("iu", "ie", "rot", "it", "orr"):
+        req[f"{o}=0"] = 3000
+        req[f"{o}=1"] = 3000
+    for k in _CONTENT_DECOYS + ["wrong_addr", "wrong_port", "wrong_both", "mcast_wrong_port"]:
+        req["skipped:" + k] = 60
+        req["dg:" + k] = 100
+    for k in ("genuine", "alt_text_src", "case_variant", "special_empty_q", "tc_genuine",
+              "mcast_any_src", "trailing"):
+        req["decided-by:" + k] = 80
+    for k in ("wrong_id", "qr_clear", "other_opcode", "other_name", "other_type", "other_class",
+              "garbage_short", "trunc_mid_an", "tc_forged", "tsig_signed", "wrong_addr", "wrong_port"):
+        req["decided-by:" + k] = 25
+    for k, v in (("return", 3000), ("UnexpectedSource", 300), ("ParseError", 300), ("Truncated", 300),
+                 ("BadResponse", 500), ("Timeout", 1000), ("hang", 150)):
+        req["outcome:" + k] = v
+    for k, v in (("v4", 2000), ("v6", 1000), ("v6-alt-spelling", 800), ("v6-mapped", 200), ("mcast", 1500)):
+        req["dest:" + k] = v
+    if EXCLUDE_D19:
+        req["excluded:D19"] = 300
+    return req
+
+
+def _stream_require():
+    req = {"__nontrivial__": 400, "async-twin": 9000, "api:receive_tcp": 2500, "api:tcp": 2500,
+           "api:send_tcp": 1000, "would-block": 2000, "partial-send": 1000, "send-would-block": 1200,
+           "send-timeout": 200, "send-timeout-mid-frame": 60, "send-what:msg": 250,
+           "send-what:bytes": 400, "payload>255": 150, "payload-empty": 30,
+           "eof-mid-frame": 200, "eof-in-length-prefix": 30, "eof-at-boundary": 1000,
+           "timeout-mid-frame": 100, "timeout-at-boundary": 300, "hang-mid-frame": 10,
+           "split-in-length-prefix": 300, "event-spans-prefix": 500, "one-octet-chunks": 100,
+           "zero-length-frame": 50, "frame>255": 200, "pipelined>=2": 200,
+           "final:done": 1000, "final:EOFError": 1500, "final:Timeout": 800, "final:ParseError": 300,
+           "final:BadResponse": 60, "it=0": 3000, "it=1": 3000, "orr=0": 3000, "orr=1": 3000}
+    for k in ("genuine", "big", "case_variant", "tc_genuine", "special_empty_q"):
+        req["frame-read:" + k] = 80
+    for k in ("garbage_short", "garbage_hdr", "trunc_mid_q", "trunc_mid_an", "trailing", "tsig_signed",
+              "empty_datagram"):
+        req["frame-bad:" + k] = 20
+    for k in ("wrong_id", "qr_clear", "other_name", "other_opcode"):
+        req["frame-bad:" + k] = 8
+    if EXCLUDE_D19:
+        req["excluded:D19"] = 20
+    return req
+
+
+_SPLITS_REQUIRE = {
+    "__nontrivial__": 300, "async-twin": 3600, "eof-mid-frame": 400, "eof-in-length-prefix": 20,
+    "eof-at-boundary": 20, "timeout-mid-frame": 400, "timeout-in-length-prefix": 20,
+    "split-in-length-prefix": 500, "one-octet-chunks": 100, "pipelined>=2": 200,
+    "would-block": 500, "api:tcp": 150, "frame-read:genuine": 2500,
+}
+
+
 def parts(tier):
     return [
         Part(
             "udp", run_udp, strategy=udp_cases(),
             n={"quick": 16000, "thorough": 16 * 10000},
             case_timeout_s=10.0,
-            require={},
+            require=_udp_require(),
         ),
         Part(
             "stream", run_stream, strategy=stream_cases(),
             n={"quick": 12000, "thorough": 16 * 7500},
             case_timeout_s=10.0,
-            require={},
+            require=_stream_require(),
         ),
         Part(
             "splits", run_stream, cases=split_cases_for(tier),
             shards={"quick": 4, "thorough": 16},
             case_timeout_s=10.0,
-            require={},
+            require=_SPLITS_REQUIRE,
         ),
     ]
